@@ -25,10 +25,10 @@ class _P(HTMLParser):
         self.ev = []
 
     def handle_starttag(self, t, a):
-        self.ev.append(("s", t, tuple(sorted((k, v) for k, v in a))))
+        self.ev.append(("s", t, tuple(sorted((k, "" if v is None else v) for k, v in a))))
 
     def handle_startendtag(self, t, a):
-        self.ev.append(("s", t, tuple(sorted((k, v) for k, v in a))))
+        self.ev.append(("s", t, tuple(sorted((k, "" if v is None else v) for k, v in a))))
         self.ev.append(("e", t))
 
     def handle_endtag(self, t):
